@@ -148,6 +148,14 @@ Qed.
 (* ------------------------------------------------------------------ no child of an older generation is running
    (the code with /repo f0fcb2b: fix_stale) *)
 
+Lemma K_gen_reach P s : reach P s -> K_gen s.
+Proof. apply reach_inv; [intros k []|]. intros; eapply K_gen_step; eassumption. Qed.
+
+Lemma boot_launch_exact_reach P s o s' :
+  reach P s -> step P s (LBootLaunch o) = Some s' ->
+  map k_child (cur_kids s') = ids (entries_of s) /\ entries_of s' = entries_of s.
+Proof. intros Hr. apply boot_launch_exact. eapply K_gen_reach; eassumption. Qed.
+
 Definition post_join (p : rpc) : bool :=
   match p with RSetCfg | RBootLock | RBootLaunch => true | _ => false end.
 
